@@ -92,7 +92,22 @@ end
 
 -- Tries to look up a module loaded by require() from the cache.  This is
 -- also called from _lua_invoke().
+-- Libraries of the host interpreter that stay in package.loaded for the
+-- sandbox implementation itself; sandboxed code must never get them from
+-- require() / _cached_mod().
+local _host_only_modules = {
+    io = true,
+    os = true,
+    package = true,
+    python = true,
+    _G = true,
+    _sandbox_phase1 = true,
+}
+
 function _cached_mod(modname)
+    if _host_only_modules[modname] then
+        return nil
+    end
     if _orig_package.loaded[modname] then
         return _orig_package.loaded[modname]
     end
